@@ -46,6 +46,16 @@ impl PoseidonPermExecutor {
     #[verifier::external_body] pub fn execute_base_<F: Field>(&self, ctx: &ExecutionContext<F>) -> Result<(), CircuitError> { unimplemented!() }
     #[verifier::external_body] pub fn execute_ext_<F: Field>(&self, ctx: &ExecutionContext<F>) -> Result<(), CircuitError> { unimplemented!() }
 }
+/// the pre-permutation state under assembly, by the sequence of assembly steps applied to it
+pub struct StateLog { pub log: Ghost<Seq<int>> }
+pub spec const ST_INIT: int = 0; pub spec const ST_PLACE: int = 1; pub spec const ST_SIBLINGS: int = 2; pub spec const ST_WITNESS: int = 3; pub spec const ST_SWAP: int = 4;
+impl PoseidonPermExecutor {
+    #[verifier::external_body] pub fn init_chain_state_(&self) -> (r: Result<StateLog, CircuitError>) ensures r matches Ok(s) ==> s.log@ == seq![ST_INIT] { unimplemented!() }
+    #[verifier::external_body] pub fn place_arity4_running_hash_(&self, s: &mut StateLog) ensures final(s).log@ == old(s).log@.push(ST_PLACE) { unimplemented!() }
+    #[verifier::external_body] pub fn fill_sibling_data_(&self, s: &mut StateLog) ensures final(s).log@ == old(s).log@.push(ST_SIBLINGS) { unimplemented!() }
+    #[verifier::external_body] pub fn apply_witness_values_(&self, s: &mut StateLog) -> (r: Result<(), CircuitError>) ensures final(s).log@ == old(s).log@.push(ST_WITNESS) { unimplemented!() }
+    #[verifier::external_body] pub fn apply_merkle_swap_(&self, s: &mut StateLog) ensures final(s).log@ == old(s).log@.push(ST_SWAP) { unimplemented!() }
+}
 pub struct RecomposeExecutor { pub op_type: NpoTypeId, pub d: usize }
 impl RecomposeExecutor {
     #[verifier::external_body] pub fn execute_row_<F: Field>(&self, ctx: &ExecutionContext<F>) -> Result<(), CircuitError> { unimplemented!() }
@@ -196,6 +206,23 @@ def build():
     u.text('verus! {')
     u.emit(lc)
     u.text('}')
+    # ---------------------------------------------------------------- execute[state_assembly]: in which ORDER the pre-permutation state of a Merkle / extension row is assembled (C08 / C19)
+    # the limbs the circuit wires into the row (witness bus) are written AFTER the prover's private sibling limbs, so they win; the direction swap comes last
+    asm = u.extract(E, r'NonPrimitiveExecutor<F>\s*for PoseidonPermExecutor<V>', 'execute', 'PoseidonPermExecutor::execute[state_assembly]')
+    a1 = re.search(r'let mut state = self\.init_chain_state\(', asm.body)
+    a2 = re.search(r'let output = exec\(&state\);', asm.body)
+    if not a1 or not a2 or a2.start() < a1.start():
+        raise ExtractError('lost anchor in PoseidonPermExecutor::execute[state_assembly]: `let mut state = self.init_chain_state(` .. `let output = exec(&state);`')
+    asm.rewrites.append(('R13', f'function body := from `let mut state = self.init_chain_state(..)` up to `let output = exec(&state);`, then Ok(state); every helper is a stub that appends its tag to the ghost log of the state', 'prefix: shape validation and resolution of the auxiliary data; suffix: permutation, trace row, outputs'))
+    asm.body = '{\n' + asm.body[a1.start():a2.start()] + '\nOk(state)\n}'
+    asm.set_sig('R11', 'fn execute_assemble(&self) -> Result<StateLog, CircuitError>', sliced=True)
+    asm.rewrite_re('R11', r'self\.init_chain_state\([^;]*\)\?', 'self.init_chain_state_()?', min_count=1)
+    asm.rewrite_re('R11', r'self\.place_arity4_running_hash\(&mut state,[^;]*\);', 'self.place_arity4_running_hash_(&mut state);', min_count=0)
+    asm.rewrite_re('R11', r'self\.fill_sibling_data\(&mut state,[^;]*\);', 'self.fill_sibling_data_(&mut state);', min_count=0)
+    asm.rewrite_re('R11', r'self\.apply_witness_values\(&mut state,[^;]*\)\?;', 'self.apply_witness_values_(&mut state)?;', min_count=0)
+    asm.rewrite_re('R11', r'self\.apply_merkle_swap\(&mut state,[^;]*\);', 'self.apply_merkle_swap_(&mut state);', min_count=0)
+    asm.ensures('private_siblings_first_then_the_circuit_wired_limbs_then_the_direction_swap',
+                'ret matches Ok(s) ==> s.log@ =~= seq![ST_INIT, ST_PLACE, ST_SIBLINGS, ST_WITNESS, ST_SWAP]')
     # ---------------------------------------------------------------- new / Clone::clone: an executor and its copy (Op::clone, Circuit::clone, boxed()) are the same row description (C06: the length tag absorb_len included)
     def exnorm(f):
         f.rewrite_re('R12', r'\bSelf \{', 'PoseidonPermExecutor {', min_count=0)
@@ -213,6 +240,7 @@ def build():
     u.emit(r)
     u.emit(nw)
     u.emit(cl)
+    u.emit(asm)
     u.emit(ph)
     u.emit(pf)
     u.emit(xb)
